@@ -98,7 +98,8 @@ def r19a(ctx):
     # the type test that precedes the name test must reject non-identifiers (strings computed at run time)
     src = ast.unparse(gm.node).replace(" ", "")
     mp = func_params(gm.node)[1] if len(func_params(gm.node)) > 1 else "member"
-    if f"ifnotisinstance({mp},IdentifierToken):raise" in src.replace("\n", ""):
+    flat_src = src.replace("\n", "")
+    if f"ifnotisinstance({mp},IdentifierToken):raise" in flat_src or f"ifnotissubclass(type({mp}),IdentifierToken):raise" in flat_src:
         ctx.proved("R19a", m.files[MOD], "get_member", gm.node, "member is an identifier token",
                    "non-identifier member operands are rejected before the name is read")
     else:
@@ -183,17 +184,18 @@ def r19c(ctx):
                 e_ = e_.value
             return isinstance(e_, ast.Name) and e_.id == tok
         locals_ = {t_.id for a_ in walk_no_nested(gbody) if isinstance(a_, ast.Assign) for t_ in a_.targets if isinstance(t_, ast.Name)
-                   and rooted_at_token(a_.value)}
+                   and (rooted_at_token(a_.value) or (isinstance(a_.value, ast.Call) and call_name(a_.value) == "type" and len(a_.value.args) == 1
+                                                      and rooted_at_token(a_.value.args[0])))}
         rets = [r_ for r_ in walk_no_nested(gbody) if isinstance(r_, ast.Return) and r_.value is not None]
         bad_rets = [r_ for r_ in rets if not (rooted_at_token(resolve_local(gv.node, r_.value))
                                               or (isinstance(r_.value, ast.Subscript) and dotted(r_.value.value) in aliases_))]
         reads = [x for x in walk_no_nested(gbody) if isinstance(x, ast.Subscript)]
         bad = [x for x in reads if dotted(x.value) not in aliases_] + bad_rets
         other_calls = [c for c in walk_no_nested(gbody) if isinstance(c, ast.Call)
-                       and call_name(c) not in ("KeyError", "ValueError", "TypeError", "isinstance")]
+                       and call_name(c) not in ("KeyError", "ValueError", "TypeError", "isinstance", "issubclass", "type")]
         names_used = {x.id for x in walk_no_nested(gbody) if isinstance(x, ast.Name)}
         token_classes = {n_ for n_ in names_used if m.resolve_class(MOD, ast.Name(id=n_, ctx=ast.Load())) is not None}
-        foreign = names_used - aliases_ - locals_ - token_classes - {"KeyError", "ValueError", "TypeError", "isinstance"} - set(params)
+        foreign = names_used - aliases_ - locals_ - token_classes - {"KeyError", "ValueError", "TypeError", "isinstance", "issubclass", "type"} - set(params)
         raises_key = any(isinstance(r_, ast.Raise) and r_.exc is not None and "KeyError" in ast.unparse(r_.exc) for r_ in walk_no_nested(gbody))
         if not bad and not other_calls and not foreign and raises_key and terminates(gv.node.body):
             ctx.proved("R19c", f, "Expression.get_value", gv.node, "identifier resolution",
@@ -317,6 +319,38 @@ def r19e(ctx, names):
                               f"string values are reachable (string literals; `str` is whitelisted) and `{meth}` does not "
                               f"start with an underscore, so `'{{0._secret}}'.{meth}(obj)` is allowed: {ty}.{meth} reads "
                               f"the attribute named in the format string, including private ones")
+
+
+# Operators whose CPython implementation reads private attributes of an operand on its own (frozen table; each line confirmed by a
+# tripwire witness in hunting wave 2).  (operator member, what must appear in its lambda for the channel to be closed, description)
+INTERPRETER_SIDE_READS = [
+    ("BITWISE_OR", "type(", "`C | D` on two classes builds a types.UnionType; str()/ascii()/'%s' of it (all whitelisted) run union_repr, "
+                            "which reads __origin__, __qualname__ and __module__ of every member class"),
+    ("FUNCTION_CALL", "tuple", "`a(*b)` with a b that is not a tuple of arguments (reached by `x(1)[0]`: the pending call is applied after "
+                               "the subscript): CPython formats the TypeError with the callee's __qualname__ and __module__, and "
+                               "MatchIf/MatchUnless log the text"),
+]
+
+
+def r19e2(ctx):
+    m = ctx.model
+    ctx.rule("R19e", "capability check, operators: an operator whose CPython implementation reads private attributes of its operands "
+                     "by itself (frozen table) guards the operand shape that triggers it")
+    oq = m.need_class("Operator")
+    mod, cnode = m.classes[oq]
+    members = {st.targets[0].id: st for st in cnode.body if isinstance(st, ast.Assign) and isinstance(st.targets[0], ast.Name)}
+    for name, needle, why in INTERPRETER_SIDE_READS:
+        st = members.get(name)
+        if st is None:
+            continue
+        lam = next((x for x in ast.walk(st.value) if isinstance(x, ast.Lambda)), None)
+        txt = ast.unparse(lam) if lam is not None else ast.unparse(st.value)
+        if needle in txt:
+            ctx.proved("R19e", m.files[mod], f"Operator.{name}", st, f"Operator.{name}", f"the operator tests its operand (`{needle}`) first")
+        else:
+            ctx.violation("R19e", m.files[mod], f"Operator.{name}", st, f"Operator.{name}",
+                          f"`{norm(lam if lam is not None else st, 40)}`: {why} - private attributes are read without any underscore "
+                          f"member access in the expression")
 
 
 REQUIRED_INTROSPECTION = {"GeneratorType", "CoroutineType", "FrameType", "CodeType", "TracebackType", "FunctionType", "ModuleType"}
@@ -458,12 +492,88 @@ def r19h(ctx):
         ctx.proved("R19h", m.files[MOD], "-", None, "no public __dict__ export", "no public node method returns the instance dict")
 
 
+def r19i(ctx):
+    m = ctx.model
+    ctx.rule("R19i", "the evaluator never asks isinstance() about a value: for an object whose type is not the tested class, "
+                     "isinstance() falls back to reading `obj.__class__` through the object's own __getattribute__ - a private "
+                     "attribute read that no member guard sees.  In get_member, get_item, Expression.get_value and Expression.eval "
+                     "every class test on anything but the parser's own tokens (`for t in self.tokens`) is written "
+                     "`issubclass(type(v), ...)`; raw subscripts in operator lambdas go through get_item")
+    eq = m.need_class("Expression")
+    fns = [m.functions.get(f"{MOD}.get_member"), m.functions.get(f"{MOD}.get_item"), m.method(eq, "get_value"), m.method(eq, "eval")]
+    n = 0
+    for f in fns:
+        if f is None:
+            ctx.inconclusive("R19i", m.files[MOD], "-", None, "evaluator functions", "an evaluator function is missing")
+            continue
+        own_tokens = {l.target.id for l in walk_no_nested(f.node) if isinstance(l, ast.For) and isinstance(l.target, ast.Name)
+                      and ast.unparse(l.iter).replace(" ", "") == "self.tokens"}
+        for c in walk_no_nested(f.node):
+            if isinstance(c, ast.Call) and call_name(c) == "isinstance" and c.args:
+                n += 1
+                a0 = c.args[0]
+                if isinstance(a0, ast.Name) and a0.id in own_tokens:
+                    ctx.proved("R19i", f.file, f.short, c, f"isinstance({a0.id}, ...)", "a token of the parsed expression, never a user value", nontrivial=False)
+                else:
+                    ctx.violation("R19i", f.file, f.short, c, f"isinstance({norm(a0, 20)}, {norm(c.args[1], 30) if len(c.args) > 1 else '?'})",
+                                  f"`{norm(c, 60)}` is applied to `{norm(a0, 20)}`, which can hold an evaluated value (an intermediate "
+                                  f"result such as `x.child`): for an object that is not an instance by type, isinstance() reads its "
+                                  f"`__class__` through __getattribute__ - observable by the object, and not refused by get_member")
+            elif isinstance(c, ast.Call) and call_name(c) == "issubclass" and c.args and isinstance(c.args[0], ast.Call) and call_name(c.args[0]) == "type":
+                n += 1
+                ctx.proved("R19i", f.file, f.short, c, f"issubclass(type({norm(c.args[0].args[0], 20)}), ...)", "type()-based class test")
+    # operator lambdas: a raw subscript on an operand bypasses get_item's class guard
+    oq = m.need_class("Operator")
+    mod, cnode = m.classes[oq]
+    for st in cnode.body:
+        if isinstance(st, ast.Assign) and isinstance(st.value, ast.Tuple):
+            for lam in [x for x in st.value.elts if isinstance(x, ast.Lambda)]:
+                ps = {a.arg for a in lam.args.args}
+                for sub in ast.walk(lam.body):
+                    if isinstance(sub, ast.Subscript) and isinstance(sub.value, ast.Name) and sub.value.id in ps:
+                        n += 1
+                        ctx.violation("R19i", m.files[mod], f"Operator.{st.targets[0].id}", sub, f"raw subscript in {st.targets[0].id}",
+                                      f"`{norm(lam, 50)}` subscripts its operand directly: `1 ? SomeClass` evaluates SomeClass[True], which "
+                                      f"reads `__class_getitem__` (and `__parameters__`, `__module__` for generic classes) - get_item refuses "
+                                      f"to subscript a class, this operator does not go through it")
+    ctx.floor("R19i", n, 6, "class tests and raw subscripts in the evaluator")
+
+
+def r19j(ctx):
+    m = ctx.model
+    ctx.rule("R19j", "a word shaped like a name is a name: Tokenizer.peek turns a word into a number with int()/float(), and float() "
+                     "accepts `nan`, `inf` and `infinity` in any case - so those words never become identifier tokens: they resolve "
+                     "although they are neither variables nor whitelisted, and a variable of that name cannot be reached.  The "
+                     "float() conversion of a raw word must sit under a test of the word's shape (first character / isidentifier / "
+                     "a pattern)")
+    tq = m.need_class("Tokenizer")
+    pk = m.method(tq, "peek")
+    n = 0
+    for c in walk_no_nested(pk.node):
+        if isinstance(c, ast.Call) and call_name(c) == "float" and len(c.args) == 1 and isinstance(c.args[0], ast.Name):
+            n += 1
+            w = c.args[0].id
+            facts = [ast.unparse(t) for t, pol in flatten_conditions(dominating_conditions(c))]
+            shaped = [x for x in facts if w in x and any(k in x for k in ("isidentifier", "isalpha", "isdigit", "isdecimal", "match(", "[0]", "[:1]"))]
+            if shaped:
+                ctx.proved("R19j", pk.file, "Tokenizer.peek", c, f"float({w}) shape test", f"only reached under `{shaped[0][:60]}`")
+            else:
+                ctx.violation("R19j", pk.file, "Tokenizer.peek", c, f"float({w}) shape test",
+                              f"`{norm(c, 30)}` is tried on every word that is not an integer, whatever its shape: `nan + 0` evaluates to nan "
+                              f"with no variables at all (expected KeyError: unknown identifier), and with locals={{'nan': 5}} the variable is "
+                              f"shadowed by the literal")
+    ctx.floor("R19j", n, 1, "float() conversions of raw words in Tokenizer.peek")
+
+
 def run(ctx):
+    r19j(ctx)
+    r19i(ctx)
     r19a(ctx)
     r19b(ctx)
     r19c(ctx)
     names = r19d(ctx)
     r19e(ctx, names)
+    r19e2(ctx)
     r19f(ctx)
     r19g(ctx)
     r19h(ctx)
